@@ -1,5 +1,8 @@
 open BinInt
 open BinNums
+open Common
+
+val coq_E380 : code
 
 val coq_MAXIMUM_ALIGNMENT : coq_Z
 
@@ -9,11 +12,33 @@ val next_pow2 : coq_Z -> coq_Z
 
 val member_alignment : coq_Z -> coq_Z
 
+type pvt =
+| PInt8
+| PInt16
+| PInt32
+| PInt64
+| PInt128
+| PUint8
+| PUint16
+| PUint32
+| PUint64
+| PUint128
+| PChar8
+| PBool
+| PWord of coq_Z
+| POther
+
+val known_size_in_bytes_as_word_member : pvt -> coq_Z option
+
 val typer_loop : coq_Z list -> coq_Z -> coq_Z -> coq_Z * coq_Z
 
 val typer_aligned_size : coq_Z list -> coq_Z
 
 val word_accepted : coq_Z -> coq_Z list -> bool
+
+val known_sizes : pvt list -> coq_Z list
+
+val align_struct_word : coq_Z -> pvt list -> code list
 
 type ty =
 | TInt of coq_Z
